@@ -13,7 +13,7 @@ Record obs := {
 }.
 
 Record case := {
-  c_reverse : bool; c_multi : bool;
+  c_reverse : bool; c_multi : bool; c_selmod : N;
   c_ops : list (op * option obs)     (* None = the operation itself panicked *)
 }.
 
@@ -36,4 +36,4 @@ Fixpoint play (s : sel) (l : list (op * option obs)) : bool :=
       end
   end.
 
-Definition check (c : case) : bool := play (init (c_reverse c) (c_multi c)) (c_ops c).
+Definition check (c : case) : bool := play (init_sel (c_reverse c) (c_multi c) (c_selmod c)) (c_ops c).
